@@ -83,6 +83,9 @@ def poolScript (args impl : List String) : Option (String × String) := do
         else if stuck ≠ 0 then "FAIL requests-left-pending-after-the-pool-stopped"
         else if st + dr > acc then "FAIL more-started-plus-dropped-than-requested"
         else if n = 0 ∧ ¬hasT ∧ st + dr ≠ acc then "FAIL requested-iterations-neither-started-nor-dropped"
+        -- with a limit that was never reached (fewer starts than the limit) nothing may have been discarded silently either
+        else if n > 0 ∧ st < n ∧ ¬hasT ∧ ¬(steps.contains "L") ∧ st + dr ≠ acc then
+          "FAIL requests-discarded-although-the-limit-was-not-reached"
         else if n > 0 ∧ st > n then "FAIL more-iterations-than-max-iterations"
         else if steps.contains "W" ∧ dr ≠ 0 then "FAIL leftovers-after-max-iterations-reported-dropped"
         else "ok"
